@@ -33,7 +33,7 @@ def stim_strategy(cfg, tier):
 
 
 def shards(tier, seed):
-    return core_shards(ID, tier, seed, ncfg=(3 if tier == "quick" else 20), ncases=(20 if tier == "quick" else 40))
+    return core_shards(ID, tier, seed, ncfg=(3 if tier == "quick" else 8), ncases=(20 if tier == "quick" else 30))
 
 
 def run_shard(sh):
